@@ -128,6 +128,7 @@ Section TwoBehaviours.
     unfold order_shows, cur_script.
     rewrite (filter_acts_len (existsb is_send) _ _ (scripts_same_acts c cbs)).
     rewrite (exists_acts (existsb is_raise) _ _ (scripts_same_acts c cbs)).
+    rewrite (exists_acts (existsb is_write) _ _ (scripts_same_acts c cbs)).
     rewrite (exists_acts (fun a => match a with [] => false | _ => true end) _ _ (scripts_same_acts c cbs)).
     reflexivity.
   Qed.
